@@ -447,6 +447,10 @@ fn gen_plan(rng: &mut Rng, claimed: &str) -> Plan {
 static HASH_ONLY: std::sync::atomic::AtomicBool = std::sync::atomic::AtomicBool::new(false);
 
 fn gen_server_id(rng: &mut Rng) -> String {
+    if rng.chance(1, 3) {
+        // a handful of ids that come back again and again (each gets one long-lived adapter)
+        return rng.pick(&["lobby", "eu-west-1.play", "Ünïcödé-ïd", "a much longer server id that does not fit into twenty characters"]).to_string();
+    }
     if rng.chance(1, 6) {
         // text that a typed configuration layer could mistake for a number or a flag
         return rng.pick(&["007", "0042", "1e3", "1.0", "1.50", "+5", "-0", "true", "True", "off", "null", "~", "0x10", " 12", "12 ", "1_000", ".5", "NaN", "9223372036854775808", "00", "no", "[]", "{}", "a: b", "#id", "'q'", "\"q\""]).to_string();
@@ -969,6 +973,8 @@ fn config_layers(server_id: &str, through_env: bool) -> Result<passage::config::
     res.map(|c| c.adapters.authentication)
 }
 
+static LONG_LIVED: std::sync::LazyLock<Mutex<std::collections::HashMap<String, Arc<MojangAdapter>>>> = std::sync::LazyLock::new(|| Mutex::new(std::collections::HashMap::new()));
+
 enum Res {
     Ok(Profile),
     Err(String),
@@ -1022,7 +1028,14 @@ async fn run_case(mock: &Mock, case: &Case, shared: Option<&Shared>) -> (Res, Ve
             },
             Some(Err(e)) => Ok(Err(passage_adapters::Error::FailedInitialization { adapter_type: "mojang (configuration)", cause: e.into() })),
             None => {
-                let adapter = MojangAdapter::default().with_server_id(case.server_id.clone());
+                // one adapter per server id, kept for the whole run: an adapter lives as long as the
+                // application and serves every login (idx % 6 == 4 still gets a fresh one)
+                let adapter = if case.idx % 6 == 4 {
+                    Arc::new(MojangAdapter::default().with_server_id(case.server_id.clone()))
+                } else {
+                    let mut cache = LONG_LIVED.lock().unwrap_or_else(|e| e.into_inner());
+                    cache.entry(case.server_id.clone()).or_insert_with(|| Arc::new(MojangAdapter::default().with_server_id(case.server_id.clone()))).clone()
+                };
                 let fut = adapter.authenticate(&client, ("play.example.org", 25565), 767, (case.name.as_str(), &case.uuid), &case.secret, &case.public);
                 tokio::time::timeout(Duration::from_secs(20), fut).await
             }
